@@ -14,7 +14,7 @@ RULE = ('SliceProjectionOp: volumes 4..9 (quick) / ..12 (thorough) voxels per ax
         'instrumented profile callable and compared with the Lean model of the search on the same test grid; on the real code: tail mass '
         'outside the ray <= 2 %, weights >= 0, constant volume -> constant slice, dense rows follow the profile, axis-aligned = weighted '
         'slicing. GridSamplingOp: 2D/3D x bilinear/nearest x align_corners x batch/channel layouts x real/complex: values compared with the '
-        'exact rational Lean interpolation model; identity grid returns the input. distinct = distinct configuration key')
+        'exact rational Lean interpolation model; identity grid returns the input. Tilted / identity slices: the whole weight matrix against profile x in-plane interpolation; quarter and half turns built from Euler angles (single precision) against the slice of the mirrored volume and a constant volume on the outermost voxels; slices partly outside the volume: row sum = fraction of the weights in view (Lean model, zero padding). distinct = distinct configuration key')
 ASSUMPTIONS = ['grid_sample kernels of torch are a parameter (model covers bilinear/nearest with zeros padding)', 'sparse projection matrix is float32: 1e-4 tolerances']
 
 
